@@ -9,6 +9,13 @@ TRUST = [
 ]
 
 CONFIG = {
+    "C02": {
+        "level": "exploration",
+        "assumptions": TRUST + ["coverage of client-selected fields is checked dynamically over a saturated store (every plan step fires), by (concrete type, field, coerced arguments)",
+                                "cases showing the syntactic feature of an open known finding are excluded and counted (coverage.excluded_by_gate)"],
+        "quick": {"tests": [("TestC02", 3000)], "shards": 4, "timeout": 600},
+        "thorough": {"tests": [("TestC02", 30000)], "shards": 16, "timeout": 2400},
+    },
     "C01": {
         "level": "exploration",
         "assumptions": TRUST + ["data conforms to the schemas (no execution errors by construction)", "field order inside objects is not compared",
